@@ -93,6 +93,21 @@ pub(crate) fn translate_block(
             let semantics = Semantics::new(&mode, &instruction);
             let mut instruction_graph = ControlFlowGraph::new();
 
+            // capstone gives the SSE2 scalar move `movsd xmm, xmm/m64` the id of the
+            // string instruction movsd; it has a register operand, the string
+            // instruction has none, and it is not a supported instruction.
+            let instruction_id = {
+                let detail = semantics.details()?;
+                let has_register_operand = detail.operands[..detail.op_count as usize]
+                    .iter()
+                    .any(|operand| operand.type_ == capstone_sys::x86_op_type::X86_OP_REG);
+                if instruction_id == capstone::x86_insn::X86_INS_MOVSD && has_register_operand {
+                    capstone::x86_insn::X86_INS_INVALID
+                } else {
+                    instruction_id
+                }
+            };
+
             match instruction_id {
                 capstone::x86_insn::X86_INS_ADC => semantics.adc(&mut instruction_graph),
                 capstone::x86_insn::X86_INS_ADD => semantics.add(&mut instruction_graph),
